@@ -1430,8 +1430,8 @@ def _inep_witnesses(mps=8):
         ws = [dict({"bytes": data[i:i + 4], "last": last and i + 4 >= len(data), "gap": 0}, **kw) for i in range(0, len(data), 4)]
         ws[0]["gap"] = gap
         return ws
-    full = list(range(1, mps + 1))
-    full2 = list(range(101, 101 + mps))
+    full = [(1 + j) % 251 for j in range(mps)]
+    full2 = [(101 + j) % 251 for j in range(mps)]
     out = []
     base = {"seed": 1, "hq": "fast", "txr": "fast", "other": 0.0}
     # K1: NRDY for endpoint 3 carries endpoint number 0 (early poll, then data)
@@ -1494,8 +1494,8 @@ def _inep_sweeps(mps=8):
         ws = [{"bytes": data[i:i + 4], "last": last and i + 4 >= len(data), "gap": 0} for i in range(0, len(data), 4)]
         ws[-1]["at"] = at                  # the completing word is presented at cycle `at` (earlier words before)
         return ws
-    full = list(range(1, mps + 1))
-    nxt = list(range(61, 61 + mps))
+    full = [(1 + j) % 251 for j in range(mps)]
+    nxt = [(61 + j) % 251 for j in range(mps)]
     T = 24
     for d in range(16):
         at = T - 8 + d
@@ -1586,14 +1586,14 @@ def _inep_histories(mps=8):
                     words += words_of([(k * 8 + j) % 251 for j in range(mps)], False)
                     host.append({"k": "accept", "d": 2, "nump": 1})
                 if pred == "short":
-                    words += words_of([200 + j for j in range(mps - 2)], True)
+                    words += words_of([(200 + j) % 251 for j in range(mps - 2)], True)
                 else:
-                    words += words_of([150 + j for j in range(mps)], pred == "zlp")
+                    words += words_of([(150 + j) % 251 for j in range(mps)], pred == "zlp")
                 n_before = nprefix + 1                           # packets acknowledged before the predecessor's ACK
                 if pred == "zlp":
                     host.append({"k": "accept", "d": 2, "nump": 1})      # boundary packet: combined -> immediate ZLP
                     n_before += 1
-                nxt = words_of([90 + j for j in range(mps)], False) + words_of([30 + j for j in range(mps)], False)
+                nxt = words_of([(90 + j) % 251 for j in range(mps)], False) + words_of([(30 + j) % 251 for j in range(mps)], False)
                 if not buffered:
                     for w in nxt:
                         w["after_accepts"] = n_before
